@@ -460,6 +460,24 @@ func (s *Set) Value(_ context.Context, t *dials.Type) (reflect.Value, error) {
 			return
 		}
 
+		if base := stripAllPtrs(ffield.Type()); base != stripTypePtr(ffield.Type()) {
+			// user-declared pointer(s) below the pointerification (**int):
+			// registerFlags registered the flag for the base type
+			if willOverflow(fval, reflect.New(base).Elem()) {
+				setErr = fmt.Errorf("value for flag %q (%s) would overflow type %s",
+					f.Name, f.Value.String(), base)
+				return
+			}
+			out := reflect.New(base).Elem()
+			out.Set(fval.Convert(base))
+			for out.Type() != ffield.Type() {
+				p := reflect.New(out.Type())
+				p.Elem().Set(out)
+				out = p
+			}
+			ffield.Set(out)
+			return
+		}
 		if willOverflow(fval, ptrVal.Elem()) {
 			setErr = fmt.Errorf("value for flag %q (%s) would overflow type %s",
 				f.Name, f.Value.String(), ptrVal.Type().Elem())
@@ -480,6 +498,13 @@ func (s *Set) Value(_ context.Context, t *dials.Type) (reflect.Value, error) {
 	}
 
 	return s.tfmr.ReverseTranslate(s.trnslVal)
+}
+
+func stripAllPtrs(t reflect.Type) reflect.Type {
+	for t.Kind() == reflect.Ptr {
+		t = t.Elem()
+	}
+	return t
 }
 
 func stripTypePtr(t reflect.Type) reflect.Type {
